@@ -1264,6 +1264,19 @@ class C19(Prop):
             return
         if bool(h[1]) != (fi[1] is not None):
             self._bad(res, c, "has <=> find_index", f"has={h[1]!r} but find_index={fi[1]!r}")
+        # the lambda forms: the matching element may itself be nil or false, so `has` is not "find found something"
+        for pred in ("i => i == a", "i => i != a", "i => not i", "i => i == nil", "i => i == b", "(i, j) => j == 1",
+                     "i => i.k == a", "i => not i.k"):
+            h = run.value("x | has: " + pred, data)
+            fi = run.value("x | find_index: " + pred, data)
+            w = run.value("x | where: " + pred + " | size", data)
+            if h[0] != "ok" or fi[0] != "ok" or w[0] != "ok":
+                if len({h[0], fi[0], w[0]}) != 1:
+                    self._bad(res, c, "has <=> find_index (lambda)", f"{pred}: has={h} find_index={fi} where|size={w}")
+                continue
+            if bool(h[1]) != (fi[1] is not None) or bool(h[1]) != (w[1] != 0):
+                self._bad(res, c, "has <=> find_index (lambda)",
+                          f"{pred}: has={h[1]!r} find_index={fi[1]!r} where|size={w[1]!r}")
 
     def _law_strarg(self, c: dict[str, Any], res: Result, run: Run) -> None:
         """f(x, .., v, ..) == f(x, .., text(v), ..) for a parameter the reference documents as <string>."""
